@@ -65,10 +65,12 @@ PROPS = {
                 state=kinds("D", "B", "OB", "OW", "PO", "PR"), effects=eff(), errnames=True),
     "C16": dict(profiles=["lifecycle", "mixed"], monitors=["requests", "counts"],
                 state=kinds("CX", "RQ", "RS", "AI", "AB"), effects=eff("ev"), errnames=False),
-    "C17": dict(profiles=["mixed"], monitors=[], state=kinds("D", "B", "WD", "CX", "RQ", "RS", "AB", "EF", "OE"), effects=eff(), errnames=False),
+    "C17": dict(profiles=["queries"], monitors=["queryExact"],
+                state=kinds("Q", "D", "B", "WD", "CX", "RQ", "RS", "AB", "EF", "OE"), effects=eff(), errnames=True),
     "C18": dict(profiles=["mixed", "lifecycle"], monitors=["issueLaw", "requests"],
                 state=kinds("CX", "RQ", "RS", "AI", "AB", "NQ", "XQ", "NH", "XH"), effects=eff(), errnames=False),
-    "C19": dict(profiles=["mixed"], monitors=["escrowBacked", "indexes"], state=lambda l: True, effects=eff("transfer"), errnames=False),
+    "C19": dict(profiles=["genesis"], monitors=["genesisLaw", "escrowBacked", "indexes"], state=lambda l: True,
+                effects=eff("transfer"), errnames=False),
     "C20": dict(profiles=["mixed", "authority"], monitors=["noPanic"], state=lambda l: True,
                 effects=lambda l: True, errnames=False),
 }
